@@ -130,6 +130,7 @@ def main(argv=None):
     known = findings.load()
     known_hits = collections.Counter()
     threads_done = set()
+    targeted_seen = collections.Counter()
     recent = collections.deque(maxlen=2)     # last cases this process executed (prelude of a replay)
     recent_op = collections.defaultdict(lambda: collections.deque(maxlen=2))   # ... and the last of the same op
     i = -1
@@ -270,6 +271,9 @@ def main(argv=None):
             elif run_no == 1 and want_probe:
                 plan.append((case, dict(sched, reexec_rate=0.3), want_))
             if sim.mutations and not s.get("targeted") and o["status"] == "ok":
+                targeted_seen[case["op"]] += 1
+            if sim.mutations and not s.get("targeted") and o["status"] == "ok" \
+                    and (targeted_seen[case["op"]] <= 6 or targeted_seen[case["op"]] % 8 == 0):
                 # M1 fired: a task changed one of its arguments.  Not a violation by itself; steer the
                 # search - the mutating tasks before, then after, every other consumer of that object
                 keys = sorted({m["key"] for m in sim.mutations})
